@@ -786,6 +786,20 @@ func runSpec(prop string) int {
 	}
 	rep := ev.NewReport(prop, "model_checking")
 	cov := runSpecInto(rep, prop, tier, spec)
+	if prop == "C12" {
+		n, sample := runTreeSweep(rep)
+		cov["tree_sweep_sequences"] = n
+		cov["transitions"] = cov["transitions"].(int) + n
+		cov["traces_validated_against_impl"] = cov["transitions"]
+		if sample != "" {
+			cov["samples"] = append(cov["samples"].([]string), sample)
+		}
+	}
+	if prop == "C09" {
+		n, samples := runTimedPops(rep)
+		cov["timed_blocking_pop_scenarios"] = n
+		cov["samples"] = append(cov["samples"].([]string), samples...)
+	}
 	return rep.Finish(cov, seqAssumptions)
 }
 
